@@ -117,6 +117,7 @@ type Frame struct {
 	curBlock *ssa.BasicBlock
 	entrySt  *State
 	args     []Val
+	parent   *Frame // lexically enclosing frame (inlined closures see the enclosing function's names)
 }
 
 type deferred struct {
@@ -419,8 +420,16 @@ func (x *Exec) iteVal(cond *Term, a, b Val) Val {
 		panic(unsupported("merge of distinct pointer descriptors"))
 	}
 	if fa, ok := a.(VFunc); ok {
-		if fb, ok2 := b.(VFunc); ok2 && fa.Fn == fb.Fn && len(fa.Bindings) == 0 && len(fb.Bindings) == 0 {
-			return fa
+		if fb, ok2 := b.(VFunc); ok2 && fa.Fn == fb.Fn && len(fa.Bindings) == len(fb.Bindings) {
+			same := true
+			for i := range fa.Bindings {
+				if !sameVal(fa.Bindings[i], fb.Bindings[i]) {
+					same = false
+				}
+			}
+			if same {
+				return fa
+			}
 		}
 		panic(unsupported("merge of function values"))
 	}
@@ -496,6 +505,10 @@ const maxInlineDepth = 14
 // execFunc symbolically executes fn from state st with the given arguments and
 // returns the merged result values and exit state (nil if no path returns).
 func (x *Exec) execFunc(fn *ssa.Function, args []Val, bindings []Val, st *State, site string, isUnit bool) ([]Val, *State) {
+	return x.execFuncIn(nil, fn, args, bindings, st, site, isUnit)
+}
+
+func (x *Exec) execFuncIn(caller *Frame, fn *ssa.Function, args []Val, bindings []Val, st *State, site string, isUnit bool) ([]Val, *State) {
 	if len(fn.Blocks) == 0 {
 		panic(unsupported("no body for " + fn.String()))
 	}
@@ -514,6 +527,9 @@ func (x *Exec) execFunc(fn *ssa.Function, args []Val, bindings []Val, st *State,
 
 	fr := &Frame{fn: fn, env: map[ssa.Value]Val{}, site: site, bindings: bindings, isUnit: isUnit,
 		names: map[string]ssa.Value{}, entrySt: st, args: args}
+	if caller != nil && fn.Parent() != nil && caller.fn == fn.Parent() {
+		fr.parent = caller
+	}
 	if isUnit {
 		fr.spec = x.Spec
 	} else if sp := x.W.Specs.Funcs[funcKey(fn)]; sp != nil {
@@ -686,8 +702,17 @@ func (x *Exec) execFunc(fn *ssa.Function, args []Val, bindings []Val, st *State,
 
 func (x *Exec) setEdge(fr *Frame, edge map[*ssa.BasicBlock]map[*ssa.BasicBlock]*State, from, to *ssa.BasicBlock, st *State) {
 	if backEdge(from, to) {
-		x.closeLoop(fr, fr.loops[to], from, st)
+		x.closeLoop(fr, fr.loops[to], from, st, false)
 		return
+	}
+	// exit edge of a bottom-tested loop: the latch both loops back and leaves; on the exit edge the
+	// invariant holds for the incremented loop variables (proved here, then available after the loop)
+	for _, s2 := range from.Succs {
+		if s2 != to && backEdge(from, s2) {
+			if li := fr.loops[s2]; li != nil && !li.body[to] {
+				x.closeLoop(fr, li, from, st, true)
+			}
+		}
 	}
 	if edge[from] == nil {
 		edge[from] = map[*ssa.BasicBlock]*State{}
@@ -811,6 +836,21 @@ func (x *Exec) enterLoop(fr *Frame, li *loopInfo, in *State, phiEntry map[*ssa.P
 		}
 	}
 	x.frameAxioms(st, fkeys)
+	// background invariant at this program point: in every reachable state the pointer-valued cells of
+	// allocated objects refer to allocated objects (also for components the loop does not write, whose
+	// objects may have been allocated by callees since the component's version was introduced)
+	var allKeys []string
+	for k := range x.compSorts {
+		allKeys = append(allKeys, k)
+	}
+	sort.Strings(allKeys)
+	for _, k := range allKeys {
+		if !pointwise[k] {
+			t := x.heapGet(st, k, x.compSorts[k])
+			x.curAlloc = st.Alloc
+			x.rangeAxiom(k, t)
+		}
+	}
 	for _, phi := range phis {
 		v := x.symbolicLike(phiEntry[phi], "phi!"+phi.Name(), phi.Type())
 		li.phiVals[phi] = v
@@ -876,7 +916,7 @@ func (x *Exec) symbolicLikeVal(proto Val, base string) Val {
 	return rebuildLike(proto, out)
 }
 
-func (x *Exec) closeLoop(fr *Frame, li *loopInfo, latch *ssa.BasicBlock, st *State) {
+func (x *Exec) closeLoop(fr *Frame, li *loopInfo, latch *ssa.BasicBlock, st *State, exit bool) {
 	if x.dry || li == nil || li.spec == nil || isFalse(st.PC) {
 		return
 	}
@@ -901,9 +941,23 @@ func (x *Exec) closeLoop(fr *Frame, li *loopInfo, latch *ssa.BasicBlock, st *Sta
 		fr.env[phi] = v
 	}
 	env := x.loopEnv(fr, li, vals, st)
-	for _, inv := range li.spec.Invariants {
-		t := x.evalBool(inv.E, env)
-		x.oblige(st, "inv", fmt.Sprintf("L%d.%s.step", li.ordinal, inv.Label), fr.site, inv.Src, t)
+	if exit {
+		for _, inv := range li.spec.OnExit {
+			t := x.evalBool(inv.E, env)
+			x.oblige(st, "inv", fmt.Sprintf("L%d.%s.exit", li.ordinal, inv.Label), fr.site, inv.Src, t)
+			x.assume(st, t)
+		}
+	} else {
+		for _, inv := range li.spec.Invariants {
+			t := x.evalBool(inv.E, env)
+			x.oblige(st, "inv", fmt.Sprintf("L%d.%s.step", li.ordinal, inv.Label), fr.site, inv.Src, t)
+		}
+	}
+	if exit {
+		for phi, v := range saved {
+			fr.env[phi] = v
+		}
+		return
 	}
 	if li.spec.Decreases != nil && li.measure != nil {
 		m1 := x.evalInt(li.spec.Decreases, env)
@@ -926,6 +980,13 @@ func (x *Exec) loopEnv(fr *Frame, li *loopInfo, phis map[*ssa.Phi]Val, st *State
 				done := SV{V: VInt{x.C.Add(vi.T, x.C.Int(1))}, T: types.Typ[types.Int]}
 				env.Vars["$i"] = done
 				env.Vars[fmt.Sprintf("$i%d", li.ordinal)] = done
+			}
+			continue
+		}
+		if phi.Comment == "rangeint.iter" {
+			if vi, ok := v.(VInt); ok {
+				env.Vars["$i"] = SV{V: vi, T: phi.Type()}
+				env.Vars[fmt.Sprintf("$i%d", li.ordinal)] = SV{V: vi, T: phi.Type()}
 			}
 			continue
 		}
@@ -971,6 +1032,29 @@ func (x *Exec) frameEnv(fr *Frame, st *State) *SpecEnv {
 	}
 	if spec != nil {
 		env.Lets = spec.LetExprs
+	}
+	// names of the lexically enclosing function (for closures inlined into it)
+	for p := fr.parent; p != nil; p = p.parent {
+		for i, prm := range p.fn.Params {
+			if _, ok := env.Vars[prm.Name()]; !ok {
+				env.Vars[prm.Name()] = SV{V: p.env[prm], T: prm.Type()}
+			}
+			if p.spec != nil {
+				if n := specParamName(p.spec, p.fn, i); n != "" {
+					if _, ok := env.Vars[n]; !ok {
+						env.Vars[n] = SV{V: p.env[prm], T: prm.Type()}
+					}
+				}
+			}
+		}
+		for name, v := range p.names {
+			if _, ok := env.Vars[name]; ok {
+				continue
+			}
+			if val, ok := p.env[v]; ok {
+				env.Vars[name] = SV{V: val, T: v.Type()}
+			}
+		}
 	}
 	return env
 }
@@ -1153,4 +1237,48 @@ func (x *Exec) safeExecInstr(fr *Frame, cur *State, ins ssa.Instruction) (ok boo
 	}()
 	x.execInstr(fr, cur, ins)
 	return true
+}
+
+// sameVal: syntactic identity of two symbolic values.
+func sameVal(a, b Val) bool {
+	switch av := a.(type) {
+	case VInt:
+		bv, ok := b.(VInt)
+		return ok && av.T == bv.T
+	case VBool:
+		bv, ok := b.(VBool)
+		return ok && av.T == bv.T
+	case VSlice:
+		bv, ok := b.(VSlice)
+		return ok && av == bv
+	case VIface:
+		bv, ok := b.(VIface)
+		return ok && av == bv
+	case VPtr:
+		bv, ok := b.(VPtr)
+		return ok && ptrSameShape(av, bv) && av.Obj == bv.Obj && av.Arr == bv.Arr && av.Idx == bv.Idx
+	case VFunc:
+		bv, ok := b.(VFunc)
+		if !ok || av.Fn != bv.Fn || len(av.Bindings) != len(bv.Bindings) {
+			return false
+		}
+		for i := range av.Bindings {
+			if !sameVal(av.Bindings[i], bv.Bindings[i]) {
+				return false
+			}
+		}
+		return true
+	case VStruct:
+		bv, ok := b.(VStruct)
+		if !ok || len(av.F) != len(bv.F) {
+			return false
+		}
+		for i := range av.F {
+			if !sameVal(av.F[i], bv.F[i]) {
+				return false
+			}
+		}
+		return true
+	}
+	return false
 }
